@@ -109,7 +109,10 @@ async def explore(tier, seed, m, v):
                 try:
                     from violations import Catalogue
                     alts = Catalogue(sg, rng).all(q)
-                    if alts: q = rng.choice(alts)[1]; kind = "rule-breaking"
+                    # literals of the wrong kind (a list / object where a scalar is expected...) are where rules themselves crash
+                    hot = [a for a in alts if a[0] in ("value_wrong_type", "list_item_after_variable", "variable_usage_not_allowed", "argument_unknown")]
+                    if hot and rng.random() < 0.5: q = rng.choice(hot)[1]; kind = "rule-breaking"
+                    elif alts: q = rng.choice(alts)[1]; kind = "rule-breaking"
                 except Exception:
                     pass
             elif r < 0.42: q = mutate_text(rng, q); kind = "mutated"
